@@ -128,7 +128,7 @@ def gen_program(rng, bad):
                     break
             else:
                 secs.append((fam, lg, sf, al, ids))
-        files.append({"name": f"o{o}", "archive": o > 0 and rng.random() < 0.3, "sections": secs})
+        files.append({"name": f"o{o}", "archive": o > 0 and rng.random() < 0.3, "sections": secs, "progbits": rng.random() < 0.25})
     return files
 
 
@@ -155,6 +155,22 @@ def build(d, files):
         rc, out = sh(f"cd {d} && as --64 {f['name']}.s -o {f['name']}.o", timeout=60)
         if rc != 0:
             return None, out
+        if f.get("progbits"):
+            # what older LLVM releases and hand-written assembly produce: array sections of type SHT_PROGBITS (gas insists on
+            # the array types, so the section headers are rewritten); the sections are still placed and ordered by NAME
+            pth = f"{d}/{f['name']}.o"
+            b = bytearray(open(pth, "rb").read())
+            shoff, = struct.unpack_from("<Q", b, 0x28)
+            shentsize, shnum, shstrndx = struct.unpack_from("<HHH", b, 0x3A)
+            stroff, = struct.unpack_from("<Q", b, shoff + shstrndx * shentsize + 0x18)
+            for i in range(shnum):
+                h = shoff + i * shentsize
+                name_off, sh_type = struct.unpack_from("<II", b, h)
+                nm_ = bytes(b[stroff + name_off:b.index(0, stroff + name_off)])
+                if sh_type in (14, 15, 16) and nm_.startswith((b".init_array", b".fini_array", b".preinit_array")):
+                    struct.pack_into("<I", b, h + 4, 1)
+                    struct.pack_into("<Q", b, h + 0x38, 0)
+            open(pth, "wb").write(b)
     main = [".text", ".globl _start", "_start:"]
     for f in files:
         main.append(f" call anchor_{f['name']}")
